@@ -217,6 +217,9 @@ func genWorldCase(rng *rand.Rand) *syCase {
 			if p.owner == "o" {
 				p.owner = "s"
 			}
+			if p.owner == "O" {
+				p.owner = "S"
+			}
 			p.sel = true
 			if c.pol == "O" && (p.phase == "F" || p.phase == "S") && !d[p.ord] {
 				p.phase = "R"
@@ -273,6 +276,11 @@ func genWorld(rng *rand.Rand, n int, emit func(string)) {
 				}
 			}
 		}
-		emit(fmt.Sprintf("%d#%s", 24, c.line()))
+		// the budget of rounds is the monitor's own bound (Spec.roundBound + 2), at least the 24 of the small worlds
+		budget := 4*(c.r+len(c.pods)+len(c.slots)) + 10
+		if budget < 24 {
+			budget = 24
+		}
+		emit(fmt.Sprintf("%d#%s", budget, c.line()))
 	}
 }
